@@ -68,3 +68,10 @@ def rules(t):
     out = _rules_c19_w5(t)
     shared.share(t, out, "C19.j", "a half-open entry is dropped in the update() that passes its token's expiry (tested against the advanced clock), so an expired handshake gets no answer", "C05", ("C05.e",))
     return out
+
+_rules_C19_w5d = rules
+def rules(t, *a, **kw):
+    import rules.wave5 as W5
+    out = _rules_C19_w5d(t, *a, **kw)
+    out.append(W5.token_history_writers(t, "C19.k"))
+    return out
